@@ -254,6 +254,9 @@ pub struct C10Plan {
     /// gate: permits released after the i-th submission (None = gate open)
     pub gate: Option<Vec<u8>>,
     pub drop_maps_early: bool,
+    /// batches submitted without the harness's marker row: together with an
+    /// empty op list that is a batch with no writes at all
+    pub bare: Vec<bool>,
 }
 
 impl C10Plan {
@@ -288,6 +291,8 @@ impl C10Plan {
         } else {
             None
         };
+        let drop_maps_early = t.chance(40);
+        let bare = (0..n).map(|_| t.chance(36)).collect();
         Self {
             workers,
             threads,
@@ -296,7 +301,8 @@ impl C10Plan {
             batches,
             submit,
             gate,
-            drop_maps_early: t.chance(40),
+            drop_maps_early,
+            bare,
         }
     }
 
@@ -371,10 +377,13 @@ pub fn run_c10(plan: &C10Plan) -> CaseResult {
             let maps = maps.clone();
             let wm = wm.clone();
             let batches = &plan.batches;
+            let bare = &plan.bare;
             handles.push(scope.spawn(move || {
                 for (b, mut tx) in q {
                     futures::executor::block_on(async {
-                        maps.m.insert(b as u32, Marker(b as u32), &mut tx).await;
+                        if !bare[b] {
+                            maps.m.insert(b as u32, Marker(b as u32), &mut tx).await;
+                        }
                         for op in &batches[b] {
                             maps.apply(op, &mut tx).await;
                         }
@@ -425,9 +434,14 @@ pub fn run_c10(plan: &C10Plan) -> CaseResult {
     // (2) commit log: every logical batch exactly once, in creation order
     let log = store.log.lock().clone();
     let mut seen = Vec::new();
+    let mut unmarked = 0usize;
     for pb in &log {
         for buf in &pb.bufs {
             let ids = marker_of(buf);
+            if ids.is_empty() {
+                unmarked += 1;
+                continue;
+            }
             if ids.len() != 1 {
                 cr.violation = Some(format!(
                     "a logical buffer in the commit log carries {} batch markers",
@@ -438,10 +452,17 @@ pub fn run_c10(plan: &C10Plan) -> CaseResult {
             seen.push(ids[0]);
         }
     }
-    let want_ids: Vec<u32> = (0..n as u32).collect();
+    let n_bare = plan.bare.iter().filter(|b| **b).count();
+    if unmarked > n_bare {
+        cr.violation = Some(format!(
+            "the commit log holds {unmarked} logical buffers without a batch marker, only {n_bare} batches were submitted without one"
+        ));
+        return cr;
+    }
+    let want_ids: Vec<u32> = (0..n as u32).filter(|b| !plan.bare[*b as usize]).collect();
     if seen != want_ids {
         cr.violation = Some(format!(
-            "commit log order {seen:?} is not the creation order 0..{n}"
+            "commit log order {seen:?} is not the creation order {want_ids:?}"
         ));
         return cr;
     }
@@ -475,6 +496,9 @@ pub fn run_c10(plan: &C10Plan) -> CaseResult {
     }
     if plan.threads > 1 {
         cr.labels.push("multi_threaded_submit");
+    }
+    if plan.bare.iter().zip(&plan.batches).any(|(b, ops)| *b && ops.is_empty()) {
+        cr.labels.push("batch_without_any_write");
     }
     if !matches!(plan.grouping, Grouping::Never) {
         cr.labels.push("physical_grouping");
